@@ -118,6 +118,19 @@ def explore_c01(rng, tier, res, deep=False):
         else:
             q = (g if i % 3 == 0 else gs).query()
         cases.append((q, doc))
+    # member names from every supplementary plane, each spelled as a surrogate-pair escape (both hex cases, both
+    # quote styles), in a document that also holds the names 0x10000 below and above (what faulty pair arithmetic yields)
+    cps = [0x10000, 0x1F600, 0x1FFFF, 0x20000, 0x20BB7, 0x2FFFF, 0x30000, 0x3FFFF, 0x40000, 0x50000, 0xE0001, 0xF0000, 0xFFFFF, 0x100000, 0x10FFFF]
+    pdoc = {chr(c): i for i, c in enumerate(cps)}
+    pdoc.update({"x" + chr(c): 100 + i for i, c in enumerate(cps[:6])})
+    for c in cps:
+        v = c - 0x10000
+        hi, lo = 0xD800 + (v >> 10), 0xDC00 + (v & 0x3FF)
+        for fmt in ("\\u%04X\\u%04X", "\\u%04x\\u%04x"):
+            esc = fmt % (hi, lo)
+            cases.append((f'$["{esc}"]', pdoc))
+            cases.append((f"$['{esc}', 'x{esc}']", pdoc))
+            cases.append((f"$..['{esc}']", {"k": pdoc, "l": [pdoc]}))
     sweep(res, BASE_ENV, cases, "C01", expect_valid=True)
     if tier == "thorough":
         small_scope_c01(res)
@@ -408,6 +421,21 @@ def explore_c06(rng, tier, res, deep=False):
 
                 q = f"$.rows[?{side('a', a)} {op} {side('b', b)}]"
                 cases.append((q, doc))
+    # Nothing against every value of the pool (empty containers and falsy scalars above all), every way of producing
+    # Nothing (an empty singular query from @ or $, value() of an empty or multi-node nodelist, a function passing it
+    # on), both sides, every operator
+    nothing_forms = ["@.missing", "$.missing", "value(@.missing)", "vf(@.missing)", "value(@.*)", "@.a.missing", "@[99]"]
+    for v in CMP_POOL:
+        for nf_ in (nothing_forms if tier == "thorough" else rng.sample(nothing_forms, 3)):
+            for op in (OPS if tier == "thorough" else rng.sample(OPS, 3)):
+                doc = {"rows": [{"a": gen._copy(v), "b": 1, "c": 2}], "x": gen._copy(v)}
+                some = rng.choice(["@.a", "$.x", "value(@.a)"])
+                cases.append((f"$.rows[?{some} {op} {nf_}]", doc))
+                cases.append((f"$.rows[?{nf_} {op} {some}]", doc))
+    for nf1 in nothing_forms:
+        for nf2 in nothing_forms:
+            for op in OPS if tier == "thorough" else rng.sample(OPS, 2):
+                cases.append((f"$.rows[?{nf1} {op} {nf2}]", {"rows": [{"a": [], "b": 1, "c": 2}], "x": {}}))
     # near-miss pairs: a random value against a copy that differs by ONE small edit (a renamed member, a leaf of
     # another kind with a "similar" value, a reordered object, an equal int/float, a dropped element, null vs missing)
     npairs = 4000 if tier == "thorough" else (900 if deep else 350)
